@@ -21,6 +21,7 @@ mod c14;
 mod c16;
 mod c17;
 mod corpus;
+mod foreign;
 mod nomshim;
 mod pan;
 mod sinks;
@@ -307,6 +308,25 @@ fn main() {
     match args[1].as_str() {
         "run" => cmd_run(&args),
         "exec" => cmd_exec(&args),
+        "foreign-debug" => {
+            let seed: u64 = args[2].parse().unwrap();
+            let from: u64 = args[3].parse().unwrap();
+            let to: u64 = args[4].parse().unwrap();
+            for i in from..to {
+                let (bytes, what) = foreign::stream(seed, i);
+                println!("{what}: {}", nomshim::explain(&bytes));
+            }
+        }
+        "c10-ref" | "c10-proc" => {
+            if args.iter().any(|a| a == "--logger") {
+                logger::install();
+            }
+            if args[1] == "c10-ref" {
+                c10::proc_ref_main();
+            } else {
+                c10::proc_history_main();
+            }
+        }
         other => harness_error(&format!("unknown command {other}")),
     }
 }
